@@ -221,6 +221,7 @@ func (obj *SparseInt8Vector) ReverseOrder() {
     index.indexInsert(j)
   }
   obj.values = values
+  obj.indexClear()
   obj.vectorSparseIndex = index
 }
 func (obj *SparseInt8Vector) Slice(i, j int) Vector {
@@ -421,7 +422,7 @@ func (obj *SparseInt8Vector) Permute(pi []int) error {
       }
     }
   }
-  obj.vectorSparseIndex = vectorSparseIndex{}
+  obj.indexClear()
   for i := 0; i < len(pi); i++ {
     obj.indexInsert(pi[i])
   }
@@ -454,7 +455,7 @@ func (obj *SparseInt8Vector) Sort(reverse bool) {
     ip = obj.n - len(obj.values)
   }
   obj.values = make(map[int]Int8)
-  obj.vectorSparseIndex = vectorSparseIndex{}
+  obj.indexClear()
   if reverse {
     sort.Sort(sort.Reverse(r))
   } else {
